@@ -69,7 +69,7 @@ def exact_of(z):
 def calls(shape):
     """(function name, route, kwargs) applicable to the shape"""
     nd = len(shape)
-    axes = [None] + list(range(nd))
+    axes = [None] + list(range(nd)) + list(range(-nd, 0))          # negative axes are valid axes too
     out = []
     for fn in ('sum', 'cumsum', 'prod', 'cumprod', 'max', 'min'):
         for ax in axes:
@@ -171,6 +171,42 @@ def judge(acc, f, shape, cs, fn, route, kw, part, by='raw'):
     return (fmt_of(z), tuple(codes(z)))
 
 
+def judge_inplace(acc, f, shape, cs, part):
+    """f(x), then x[idx] = v in place (and x.sort() for the method form), then f(x) again: the second result must see the new element"""
+    size = len(cs)
+    idx = (0,) * len(shape)
+    newc = f.lo if cs[0] != f.lo else f.hi
+    now = [newc] + list(cs[1:])
+    y2 = None
+    for fn, call in (('sum', lambda x: np.sum(x)), ('cumsum', lambda x: np.cumsum(x)), ('max', lambda x: x.max()), ('min', lambda x: np.min(x)),
+                     ('matmul', lambda x: np.matmul(x, x.T) if len(shape) == 2 else np.matmul(x, x)),
+                     ('dot', lambda x: np.dot(x, x.T) if len(shape) == 2 else x.dot(x)), ('sort', lambda x: np.sort(x, axis=None)),
+                     ('clip', lambda x: x.clip(f.fvalue(f.lo // 2), f.fvalue(f.hi // 2))), ('sin', lambda x: np.sin(x))):
+        for by in ('value', 'raw'):
+          case = {'part': part, 'inplace': True, 'fmt': list(f), 'shape': list(shape), 'codes': list(cs), 'fn': fn, 'by': by}
+          if 2 * f.n_word + 4 > 53:
+              continue
+          acc.evaluations += 1
+          acc.transitions += 4
+          acc.nontrivial += 1
+          try:
+              x = build(f, cs, tuple(shape), by)
+              call(x)
+              x[idx] = f.fvalue(newc)
+              z = call(x)
+              ref = call(build(f, now, tuple(shape), 'raw'))           # the same function on a fresh object holding the new codes
+              same = (fmt_of(z), codes(z), np.shape(z.val)) == (fmt_of(ref), codes(ref), np.shape(ref.val)) if isinstance(z, Fxp) else \
+                  np.array_equal(np.asarray(z), np.asarray(ref))
+          except Exception as e:
+              acc.violation('exception', case, '%s history on %s%s raised %r' % (fn, f.dtype, shape, e), {'part': part, 'fn': fn, 'aspect': 'inplace'})
+              continue
+          if not same:
+              acc.violation('inplace', case, '%s(x), x%s = code %d, %s(x) again on %s%s codes %s: result differs from the same call on a fresh object with the new codes'
+                            % (fn, list(idx), newc, fn, f.dtype, shape, list(cs)), {'part': part, 'fn': fn, 'aspect': 'inplace'})
+          else:
+              acc.outcome('inplace_ok')
+
+
 def judge_dot(acc, fxm, fym, sx, sy, xs, ys, fn, route, part):
     case = {'part': part, 'fx': list(fxm), 'fy': list(fym), 'sx': list(sx), 'sy': list(sy), 'xs': list(xs), 'ys': list(ys), 'fn': fn, 'route': route}
     acc.evaluations += 1
@@ -213,7 +249,7 @@ DOT_SHAPES = (((3,), (3,)), ((2,), (2,)), ((5,), (5,)), ((1, 3), (3, 1)), ((2, 3
 
 def bounds(tier, seed):
     return {'reductions': '12 shapes x %d formats (n_word in %s, n_frac {0,mid,n}, both signednesses) x fills (%s; patterns over {lo,hi,0,+-1}; seed '
-                          'extras) x sum, cumsum, prod, cumprod, max, min (axis None and each axis, numpy and method routes), sort, clip, transpose, T, '
+                          'extras) x sum, cumsum, prod, cumprod, max, min (axis None, each axis and each negative axis, numpy and method routes; f(x), in-place x[i]=v, f(x) again), sort, clip, transpose, T, '
                           'trace, diagonal (offset 0 and 1)' % (len(formats()), WORDS, 'every assignment of {lo,hi} for sizes <= 4, structured extreme '
                                                                 'patterns above' if tier == 'quick' else 'every assignment of {lo,hi} to the elements (2^size)'),
             'dot': '13 shape pairs x all ordered format pairs of the grid (mixed signedness) x extreme fills {all lo, all hi, lo/hi alternating, hi/lo} '
@@ -238,7 +274,10 @@ def run_shard(sh):
     if sh['part'] == 'R':
         shape = SHAPES[sh['si']]
         size = int(np.prod(shape))
-        for cs in fills(f, size, sh['full'], sh['seed']):
+        fl = fills(f, size, sh['full'], sh['seed'])
+        for cs in (fl[0], fl[-1], fl[-2]):
+            judge_inplace(acc, f, shape, cs, 'R')
+        for cs in fl:
             res = {}
             for fn, route, kw in calls(shape):
                 if route == 'np':
@@ -273,6 +312,9 @@ def run_shard(sh):
 def replay(case):
     reset_class_state()
     acc = Acc()
+    if case.get('inplace'):
+        judge_inplace(acc, Fmt(*case['fmt']), tuple(case['shape']), case['codes'], case['part'])
+        return [v for v in acc.violations if v['case'].get('fn') == case['fn']]
     if 'fx' in case:
         judge_dot(acc, Fmt(*case['fx']), Fmt(*case['fy']), tuple(case['sx']), tuple(case['sy']), case['xs'], case['ys'], case['fn'], case['route'], case['part'])
     else:
